@@ -255,5 +255,25 @@ def view_McBlockExtra (v : Val) : Val :=
     ("recover_create_msg", r.get "recover_create_msg"), ("mint_msg", r.get "mint_msg"),
     ("config", viewMaybe view_ConfigParams (v.get "config"))]
 
+/-- an inline `HashmapAug n X Y` as returned by `load_hashmap_aug`: the `(dict, extras)` tuple -/
+def viewAug (wx wy : Val → Val) (n : Nat) (tv : Val) : Val :=
+  Rd.tuple [Rd.dict (flattenAug wx (n + 1) n [] tv), Rd.list (extrasAug wy (n + 1) n tv)]
+
+/-- `AccountBlock` (`acc_trans#5`): `transactions` = the `(dict, extras)` tuple of the inline `HashmapAug 64 ^Transaction CurrencyCollection`
+    (each Transaction parsed from its own cell, nesting budget 3 = the spec's `transaction`), `state_update` by reference -/
+def view_AccountBlock (v : Val) : Val :=
+  Rd.obj "AccountBlock" [("account_addr", Rd.hex (v.get "account_addr")),
+    ("transactions", viewAug (Tx.view_Transaction 3) Tx.view_CurrencyCollection 64 (v.get "transactions")),
+    ("state_update", view_HashUpdate (v.get "state_update"))]
+
+/-- `BlockExtra` (`block_extra#4a33f6fd`): the three descriptor dictionaries as `(dict, extras)` tuples, `custom` = `None` / McBlockExtra -/
+def view_BlockExtra (v : Val) : Val :=
+  Rd.obj "BlockExtra" [
+    ("in_msg_descr", viewAugE (Tx.view_InMsg (Tx.view_Transaction 3)) Tx.view_ImportFees 256 (v.get "in_msg_descr")),
+    ("out_msg_descr", viewAugE (Tx.view_OutMsg (Tx.view_Transaction 3)) Tx.view_CurrencyCollection 256 (v.get "out_msg_descr")),
+    ("account_blocks", viewAugE view_AccountBlock Tx.view_CurrencyCollection 256 (v.get "account_blocks")),
+    ("rand_seed", v.get "rand_seed"), ("created_by", v.get "created_by"),
+    ("custom", viewMaybe view_McBlockExtra (v.get "custom"))]
+
 end Blk
 end TonVerif.Tlb
